@@ -4,7 +4,7 @@
 // rsa / dsa key parts, elliptic_curve (p256, p384, p521, k256) public / secret keys, and crate::crypto::
 // ecc_curve::ECCCurve::oid().  Every accessor is modelled as a FUNCTION of the key value (an uninterpreted
 // ghost view), which is all a length-agreement proof needs: write_len() and to_writer() both call the
-// accessor and must see the same octets.  Include after shims/io.rs, shims/bytes.rs, shims/secret_reader.rs.
+// accessor and must see the same octets.  Include after shims/io.rs (or shims/io_sink.rs), shims/bytes.rs and a Serialize trait (shims/secret_reader.rs or shims/serlen_sink.rs).
 // ---------------------------------------------------------------------------------
 
 //@trusted T2 ed25519_dalek::VerifyingKey::as_bytes, ed25519_dalek::SigningKey::as_bytes, x25519_dalek::PublicKey::as_bytes, x25519_dalek::StaticSecret::as_bytes, cx448::VerifyingKey::as_bytes (57 octets), cx448::SigningKey::as_bytes, cx448::x448::{PublicKey, Secret}::as_bytes (56 octets): return a reference to the fixed-size octet array of the key; the octets are a function of the key value
@@ -115,6 +115,8 @@ pub struct BigUint { _x: u8 }
 impl BigUint {
     /// big-endian magnitude as produced by to_bytes_be()
     pub uninterp spec fn be_bytes(&self) -> Seq<u8>;
+    #[verifier::external_body]
+    pub fn to_bytes_be(&self) -> (r: Vec<u8>) ensures r@ == self.be_bytes() { unimplemented!() }
 }
 pub mod rsa {
     use super::*;
@@ -224,12 +226,6 @@ impl Clone for ECCCurve {
     fn clone(&self) -> (r: ECCCurve) ensures r == *self { unimplemented!() }
 }
 
-//@trusted T1 no in-memory byte vector is longer than 2^56 octets (virtual address space of every supported 64-bit target), so sums of a few lengths fit usize
-#[verifier::external_body]
-pub proof fn axiom_addr_space_vec(v: &Vec<u8>)
-    ensures v@.len() < 0x0100_0000_0000_0000
-{}
-
 //@trusted T2 rsa::RsaPrivateKey::{d, primes} (trait PrivateKeyParts): the private exponent and the prime factors; every constructor of RsaPrivateKey leaves at least two primes (rsa-0.9.10 key.rs from_components: fewer than two are recovered or rejected).  num_bigint_dig: `p.mod_inverse(&q)` for BigUint is Some(x) exactly when gcd(p, q) == 1 (algorithms/mod_inverse.rs:14), x then lies in [0, q) so `to_biguint()` is Some; BigUint::clone copies the number; `Mpi::from(BigUint)` holds its to_bytes_be()
 pub uninterp spec fn big_coprime(a: BigUint, b: BigUint) -> bool;
 pub uninterp spec fn big_modinv(a: BigUint, b: BigUint) -> BigUint;
@@ -287,3 +283,15 @@ impl core::convert::From<BytesMut> for Bytes {
 pub fn slice_try_into_arr_ref<const N: usize>(s: &[u8]) -> (r: core::result::Result<&[u8; N], ()>)
     ensures (r is Ok) == (s@.len() == N), r matches Ok(a) ==> a@ == s@
 { unimplemented!() }
+
+//@trusted T4 crypto::ecdh::Curve25519Legacy::to_bytes_rev (src/crypto/ecdh.rs:66, an iterator .rev().zip() chain outside the accepted subset) returns 32 octets that are a function of the key
+pub mod ecdh_legacy_scalar {
+    use vstd::prelude::*;
+    #[verifier::external_body]
+    pub struct Curve25519Legacy { _x: u8 }
+    impl Curve25519Legacy {
+        pub uninterp spec fn rev_bytes(&self) -> Seq<u8>;
+        #[verifier::external_body]
+        pub fn to_bytes_rev(&self) -> (r: [u8; 32]) ensures r@ == self.rev_bytes() { unimplemented!() }
+    }
+}
